@@ -24,6 +24,15 @@ LABREA.LOGGING.DISABLED / labrea.logging.disabled()) - the full 5 x 3 x 3 cross 
       values, in partially supplied LABREA sections - is indistinguishable (outcome, user code,
       cache traffic, log requests, records) from the same history with no LABREA section at all.
 
+   I  (family `direct`) the public wrappers used WITHOUT a dataset around them - labrea.cached / Cached,
+      Computation, Logged at the root of the evaluated expression, so that the caller's dictionary
+      reaches the switch readers unmixed - evaluated with ONE long-lived options dictionary object
+      that the caller rewrites IN PLACE between evaluations (the top-level object and the LABREA
+      section objects persist, the switches flip inside them): all clauses above apply to it, and the
+      history is indistinguishable from the same history with a fresh dictionary object per
+      evaluation (the switches are read from the dictionary's CONTENT at each evaluation).  This
+      family is compared with the model too (the model sees the same dictionaries).
+
 Two further scenario families, compared with the property's oracle only (Model/Eval.v reads the
 switches with a raw lookup - `flag_at`: no template resolution - and has no log effect):
   forms   switch values given as option templates ('{K40}', chains, dotted references) resolving
@@ -93,7 +102,8 @@ class Gen16(gen.Gen):
         d["cache"] = "none" if rng.random() < 0.08 else "mem"
 
 
-def lab_section(cfg, rng):
+def lab_section(cfg, rng, p_off=None):
+    """p_off: probability that a switch that is off is nevertheless present with a false value"""
     cm, em, lm = cfg
     sec = {}
     if cm == "DISABLED":
@@ -102,16 +112,16 @@ def lab_section(cfg, rng):
             sec[CACHE][DISABLE] = False          # DISABLED wins over DISABLE
     elif cm == "DISABLE":
         sec[CACHE] = {DISABLE: True}
-    elif cm in ("on", "nocache") and rng.random() < 0.15:
+    elif cm in ("on", "nocache") and rng.random() < (0.15 if p_off is None else p_off):
         # explicit "not disabled" spellings, including DISABLED=False shadowing DISABLE=True
         sec[CACHE] = rng.choice([{DISABLED: False}, {DISABLE: False}, {DISABLED: False, DISABLE: True}, {DISABLED: 0}])
     if em == "option":
         sec[EFFECTS] = {DISABLED: True}
-    elif rng.random() < 0.1:
+    elif rng.random() < (0.1 if p_off is None else p_off):
         sec[EFFECTS] = {DISABLED: False}
     if lm == "option":
         sec[LOGGING] = {DISABLED: True}
-    elif rng.random() < 0.1:
+    elif rng.random() < (0.1 if p_off is None else p_off):
         sec[LOGGING] = {DISABLED: False}
     return sec
 
@@ -335,6 +345,94 @@ def make_logfx_scenario(rng, i, n_ops, configs):
                 effect_kind="plain", reads_switch=False, family="logfx", modelled=False)
 
 
+# ----------------------------------------------------------------------------- family `direct`:
+# Cached / Computation / Logged used directly, one options dictionary object rewritten in place
+
+DIRECT_SHAPES = ["cached", "cached-comp", "dataset-like", "comp-logged", "logged-cached", "comp"]
+
+
+def make_direct_scenario(rng, i, n_ops, configs):
+    g = Gen16(rng, effect_kind="plain", with_alloptions=False, with_effects=True,
+              preset_on_ds=0.3 if i % 2 else 0.0, with_map=(i % 3 != 0))
+    base = g.scenario(n_exprs=2, depth=2, n_ops=0)
+    exprs = list(base["exprs"])
+    ds_ids = list(g.env)
+
+    def effects():
+        return [("pstep", g.newf(("tag",)), []) for _ in range(rng.randint(1, 2))]
+
+    def cid():
+        c = g.next_c
+        g.next_c += 1
+        return c
+    shapes = []
+    for j in range(len(exprs)):
+        inner = exprs[j]
+        if rng.random() < 0.4:      # no dataset below: every node sees the caller's dictionary object itself
+            inner = ("call", g.newf(("tag",)), [g.option() for _ in range(rng.randint(1, 2))])
+        if inner[0] in ("map", "iter"):     # a bare generator must not be what a cache stores (finding D21's zone)
+            inner = ("tolist", inner)
+        shape = DIRECT_SHAPES[(i + j * 5) % len(DIRECT_SHAPES)] if rng.random() < 0.8 else rng.choice(DIRECT_SHAPES)
+        shapes.append(shape)
+        if shape == "cached":
+            e = ("cached", cid(), inner)
+        elif shape == "cached-comp":
+            e = ("cached", cid(), ("comp", inner, effects()))
+        elif shape == "dataset-like":       # Dataset's own composition, without the WithOptions layers
+            e = ("cached", cid(), ("logged", ("comp", inner, effects())))
+        elif shape == "comp-logged":
+            e = ("comp", ("logged", inner), effects())
+        elif shape == "logged-cached":
+            e = ("logged", ("cached", cid(), inner))
+        else:
+            e = ("comp", inner, effects())
+        exprs[j] = e
+    pool = g.dict_pool()
+    o0 = dict(rng.choice(pool[:1] + pool))       # one dictionary per history (see make_forms_scenario)
+    ops, extra, cfgs = [], [], []
+    for k in range(n_ops):
+        r = rng.random()
+        if r < 0.3:      # cache on: the switched-off evaluations meet warm entries (and the other way round)
+            cfg = ("on", rng.choice(["on", "on", "option"]), rng.choice(["on", "on", "option"]))
+        elif r < 0.65:   # the option spellings: the switches that live IN the dictionary
+            cfg = (rng.choice(["DISABLED", "DISABLE", "on"]), rng.choice(["on", "option"]), rng.choice(["on", "option"]))
+        else:
+            cfg = next(configs)
+        idx = rng.randrange(len(exprs))
+        m = "evaluate" if rng.random() < 0.88 else rng.choice(["validate", "keys", "explain"])
+        cm, em, lm = cfg
+        ops.append((m, idx, cm == "ctx", lm == "ctx", with_lab(o0, lab_section(cfg, rng, p_off=0.45), rng)))
+        extra.append((tuple(ds_ids) if em == "toggle" else (), tuple(ds_ids) if cm == "nocache" else ()))
+        cfgs.append(cfg)
+    return dict(ftable=dict(g.ftable), env=dict(g.env), exprs=exprs, ops=ops, extra=extra, cfgs=cfgs,
+                effect_kind="plain", reads_switch=False, family="direct", modelled=True, inplace=True, shapes=shapes)
+
+
+def morph(dst, src, depth=0):
+    """rewrite the dictionary object `dst` IN PLACE so that it equals `src` (same key order): the object
+    itself persists, and so do the dictionary objects of the LABREA section below it (the switches flip
+    inside them); every other value is replaced by the new object"""
+    items = []
+    for k, v in src.items():
+        old = dst.get(k)
+        if isinstance(v, dict) and isinstance(old, dict) and (depth > 0 or k == core.name_of(LAB)):
+            items.append((k, morph(old, v, depth + 1)))
+        else:
+            items.append((k, v))
+    dst.clear()
+    dst.update(items)
+    return dst
+
+
+def comp_effect_fids(scn):
+    """callbacks of the effects of Computation nodes used directly (not through a dataset)"""
+    out = []
+    for t in list(cp.sub_exprs(scn["exprs"])) + list(cp.sub_exprs(scn["env"])):
+        if t and t[0] == "comp":
+            out += [e[1] for e in t[2] if e[0] == "pstep"]
+    return out
+
+
 class Builder16(core.Builder):
     """core.Builder + labrea.logging.LogEffect (as a dataset effect) and Logged at any level"""
 
@@ -479,6 +577,9 @@ def _run_impl16(scn, twin=False):
                     ds.enable_effects()
                 ds.set_cache(NoCache() if dsid in noc else orig_cache[dsid])
             po = core.py_json(o)
+            if scn.get("inplace"):
+                # ONE caller dictionary object for the whole history, rewritten in place between operations
+                po = morph(state.setdefault("po", {}), po)
             w.calls.clear()
             state.update(records=[], reqs=[], instances=[], stack=[])
             before = {cid: dict((kk, id(v)) for kk, v in c._cache.items()) for cid, c in w.caches.items()}
@@ -605,17 +706,20 @@ def strip_cache_switch(o):
     return o2
 
 
-def oracle(scn, obs=None, tw=None):
+def oracle(scn, obs=None, tw=None, fresh=None):
     """the property's statement evaluated on the implementation; returns (failures, counters)"""
     obs = obs if obs is not None else run_impl16(scn)
     tw = tw if tw is not None else run_impl16(scn, twin=True)
+    if scn.get("inplace") and fresh is None:
+        fresh = run_impl16(dict(scn, inplace=False))
+    ceff = comp_effect_fids(scn)
     fails = []
     cnt = dict(value_checks=0, cache_off_ops=0, nocache_ops=0, effect_off_ops=0, log_off_ops=0,
                instances=0, hits=0, misses=0, requests=0, fresh_refs=0, flips_on_warm=0, effect_pairs=0)
     eff = effect_fids(scn)
     lfx = log_effects(scn)
     lfx_msgs = {msg for fx in lfx.values() for msg, _ in fx}
-    cnt.update(all_off_ops=0, all_off_ops_with_switches_present=0, log_effect_instances=0, log_effect_requests=0,
+    cnt.update(inplace_ops=0, all_off_ops=0, all_off_ops_with_switches_present=0, log_effect_instances=0, log_effect_requests=0,
                silenced_above_info=0)
     ds_cids = set(scn["env"])
     warm = False
@@ -629,6 +733,19 @@ def oracle(scn, obs=None, tw=None):
         if "crash:" in a["line"].split("|")[0]:
             bad("entering / leaving the switch contexts failed outside the evaluation", line=a["line"][:120])
             continue
+        # ---- I: the switches are read from the dictionary's content at each evaluation: the history on one
+        # dictionary object rewritten in place is the history with a fresh dictionary object per evaluation
+        if fresh is not None:
+            cnt["inplace_ops"] = cnt.get("inplace_ops", 0) + 1
+
+            def view_i(x):
+                return dict(line=x["line"], requests=[r[:3] for r in x["reqs"]], records=list(x["records"]), stored=x["cache_changed"])
+            vi, vf = view_i(a), view_i(fresh[j])
+            if vi != vf:
+                diff = [k for k in vi if vi[k] != vf[k]]
+                bad("one options dictionary object rewritten in place between evaluations: the operation differs from the same "
+                    "operation of the same history given a fresh dictionary object each time", method=m, differs_in=diff,
+                    got={k: vi[k] for k in diff}, fresh_objects={k: vf[k] for k in diff})
         # ---- O: every switch of every operation so far is off (however the off switches are written):
         # this IS the all-switches-off history - same outcome, user code, cache traffic, requests, records
         all_off_so_far = all_off_so_far and tuple(cfg) == ("on", "on", "on") and not ex[0] and not ex[1] and not cc and not lc
@@ -649,7 +766,9 @@ def oracle(scn, obs=None, tw=None):
         if m in ("evaluate", "validate") and em != "on" and (j % 3 == 0 or m == "validate") and not scn["reads_switch"]:
             ra, rb = effects_pair(scn, op)
             cnt["effect_pairs"] += 1
-            if cp.outcome(ra["line"]) != cp.outcome(rb["line"]) or user_calls(ra["calls"]) != user_calls(rb["calls"]):
+            # (a Computation used directly has no per-dataset toggle: its effects are outside this comparison)
+            ra_calls, rb_calls = ([x for x in user_calls(r["calls"]) if not any(x.startswith(f"c{f}(") for f in ceff)] for r in (ra, rb))
+            if cp.outcome(ra["line"]) != cp.outcome(rb["line"]) or ra_calls != rb_calls:
                 bad("LABREA.EFFECTS.DISABLED and disable_effects() disagree on a fresh graph", method=m,
                     option=[cp.outcome(ra["line"])] + user_calls(ra["calls"])[:6], toggle=[cp.outcome(rb["line"])] + user_calls(rb["calls"])[:6])
         if m != "evaluate":
@@ -741,6 +860,8 @@ def oracle(scn, obs=None, tw=None):
             cnt["effect_off_ops"] += 1
             ran = [x for x in a["calls"] for fs in eff.values() for f in fs if x.startswith(f"c{f}(")]
             ran += [r[2] for r in a["reqs"] if r[2] in lfx_msgs]
+            if em == "option":      # a Computation used directly has no toggle; the option switches its effects off too
+                ran += [x for x in a["calls"] for f in ceff if x.startswith(f"c{f}(")]
             if ran:
                 bad("effect ran although effects are disabled", calls=ran[:4])
         # ---- L: emissions
@@ -760,6 +881,8 @@ def oracle(scn, obs=None, tw=None):
                         level=lv, message=msg[:60])
         if any(x.startswith("set") for x in a["calls"]):
             warm = True
+    # per operation, the specific clauses first (the comparison with fresh dictionary objects last)
+    fails.sort(key=lambda f: (f["op_index"], f["what"].startswith("one options dictionary object")))
     return fails, cnt
 
 
@@ -842,7 +965,7 @@ def tag_value_failures(ctx, cands):
 
 
 def slim(scn):
-    return {k: scn[k] for k in ("ftable", "env", "exprs", "ops", "extra", "cfgs", "effect_kind", "reads_switch", "family", "modelled") if k in scn}
+    return {k: scn[k] for k in ("ftable", "env", "exprs", "ops", "extra", "cfgs", "effect_kind", "reads_switch", "family", "modelled", "inplace", "shapes") if k in scn}
 
 
 def run(ctx):
@@ -855,9 +978,12 @@ def run(ctx):
     n_forms, n_logfx = (120, 90) if ctx.quick else (1200, 900)
     forms = [make_forms_scenario(rng, i, n_ops, configs) for i in range(n_forms)]
     logfx = [make_logfx_scenario(rng, i, n_ops, configs) for i in range(n_logfx)]
-    scns = scns + forms + logfx
+    n_direct = 150 if ctx.quick else 1500
+    direct = [make_direct_scenario(rng, i, n_ops, configs) for i in range(n_direct)]
+    scns = scns + forms + logfx + direct
     obs_all = [run_impl16(s) for s in scns]
     tw_all = [run_impl16(s, twin=True) for s in scns]
+    fresh_all = [run_impl16(dict(s, inplace=False)) if s.get("inplace") else None for s in scns]
     # model vs implementation: everything the model can express (not: templated switch values, log effects)
     in_model = [k for k, s in enumerate(scns) if s.get("modelled", True)]
     models_m, mism, stats = correspondence16(ctx, [scns[k] for k in in_model], "Cases_C16", [obs_all[k] for k in in_model])
@@ -867,8 +993,8 @@ def run(ctx):
     violations, cands = [], []
     totals, distinct, seen_cfg = {}, set(), set()
     by_family = {}
-    for s, obs, tw, ml in zip(scns, obs_all, tw_all, models):
-        fails, cnt = oracle(s, obs, tw)
+    for s, obs, tw, ml, fr in zip(scns, obs_all, tw_all, models, fresh_all):
+        fails, cnt = oracle(s, obs, tw, fr)
         fam = by_family.setdefault(s.get("family", "base"), dict(scenarios=0, ops=0, modelled_scenarios=0, oracle_failures=0))
         fam["scenarios"] += 1
         fam["ops"] += len(s["ops"])
